@@ -1,19 +1,18 @@
 #!/bin/sh
-# merge_agent.sh <Cnn> — copy one property's files from /work/<Cnn>/verif into /verif
-# (only that property's files; generated files are regenerated here).
+# merge_agent.sh <workspace> — bring one workspace's changes from /work/<ws>/verif into /verif by a 3-way patch
+# (so two workspaces that touched the same file merge like git would); generated files and evidence are
+# excluded and regenerated here.
 set -e
-id="$1"; w="/work/$id/verif"
-cd "$w"
-# every file added/changed in the clone relative to its root commit, except generated ones
-base=$(git rev-list --max-parents=0 HEAD | tail -1)
-git diff --name-only "$(git merge-base HEAD origin/HEAD 2>/dev/null || echo $base)" HEAD -- . \
-  | grep -v -e '^MANIFEST.json$' -e '^lean/Driver/Main.lean$' -e '^known-findings.txt$' -e '^harness/engine.py$' \
-  | while read f; do
-      [ -f "$w/$f" ] || continue
-      mkdir -p "/verif/$(dirname "$f")"
-      cp "$w/$f" "/verif/$f"
-      echo "  + $f"
-    done
+ws="$1"; w="/work/$ws/verif"
+base=$(git -C "$w" merge-base HEAD origin/master 2>/dev/null || git -C "$w" rev-list --max-parents=0 HEAD | tail -1)
+git -C "$w" diff --binary "$base" HEAD -- . ':!MANIFEST.json' ':!lean/Driver/Main.lean' ':!known-findings.txt' \
+    ':!harness/engine.py' ':!evidence' > "/tmp/merge-$ws.patch"
 cd /verif
+if git apply -3 --whitespace=nowarn "/tmp/merge-$ws.patch" 2>"/tmp/merge-$ws.err"; then
+  git -C "$w" diff --name-only "$base" HEAD | grep -v -e '^MANIFEST.json$' -e '^lean/Driver/Main.lean$' -e '^known-findings.txt$' -e '^evidence/' | sed 's/^/  + /'
+else
+  echo "3-way apply FAILED for $ws:"; cat "/tmp/merge-$ws.err" | tail -20; exit 1
+fi
+git reset -q     # apply -3 stages; leave everything unstaged for the caller's commit
 python3 harness/gen_main.py
 /venv/bin/python harness/gen_manifest.py
